@@ -468,3 +468,50 @@ Example C13_ex_source_run :
   enough 12 2 cs /\ input_ok 0 cs /\ clean 2 false (stream cs) = true /\
   concat (map evs (fst (source_run_edges 12 DBoth 2 false 1000 cs))) = [(Rising, 1); (Falling, 4); (Rising, 7)].
 Proof. exact tie_ex_run. Qed.
+
+(* ==================================================================================================
+   Extension 4: TRANSLATOR TIE for combine_events (Edges/TiePrimsCombine.v, gen/EdgesCombineGen.v,
+   Edges/ProofsTieCombine.v).  gen/EdgesCombineGen.v is regenerated from psiaudio/pipeline.py on every run by
+   translate/pycombine2coq.py; a function raising different exceptions has type `events + exn` (inl = returns). *)
+From PV Require Import Edges.TiePrimsCombine gen.EdgesCombineGen Edges.ProofsTieCombine.
+
+(* generated combine_events = model combine_events, for EVERY list of blocks: the merged block (start of the first
+   block, end of the last, rate of the first, the event tables joined in order) or the same exception (IndexError on the
+   empty list; "not aligned" / "different sampling rates", whichever the checking loop meets first) *)
+Theorem C13_source_combine_tie : forall l, to_combined (gen_combine_events l) = combine_events l.
+Proof. exact combine_tie. Qed.
+Print Assumptions C13_source_combine_tie.
+
+(* C13_combine over the generated definition; the empty list is exactly the IndexError case *)
+Theorem C13_source_combine : forall l,
+  ((l <> [] /\ adjacent l /\ same_fs l) <-> exists E, gen_combine_events l = inl E) /\
+  (l = [] <-> gen_combine_events l = inr EIndex).
+Proof. exact source_combine. Qed.
+Print Assumptions C13_source_combine.
+
+(* C13_combine_result over the generated definition *)
+Theorem C13_source_combine_result : forall l E, gen_combine_events l = inl E ->
+  evs E = concat (map evs l) /\
+  (forall e, count_occ ev_dec (evs E) e = sum_counts e l) /\
+  (forall e, In e (evs E) <-> exists B, In B l /\ In e (evs B)) /\
+  e_start E = e_start (hd E l) /\ e_end E = e_end (last l E) /\ e_fs E = e_fs (hd E l).
+Proof. exact source_combine_result. Qed.
+Print Assumptions C13_source_combine_result.
+
+(* C13_edges_blocks_combine with BOTH sides regenerated: the blocks the generated coroutine emits are merged by the
+   generated combine_events *)
+Theorem C13_source_edges_blocks_combine : forall fuel d m init fs cs bs s, enough fuel m cs ->
+  source_run_edges fuel d m init fs cs = (bs, s) -> bs <> [] ->
+  exists E, gen_combine_events bs = inl E /\ evs E = concat (map evs bs).
+Proof. exact source_edges_blocks_combine. Qed.
+Print Assumptions C13_source_edges_blocks_combine.
+
+Example C13_ex_source_combine :
+  let B1 := {| evs := [(Rising, 3)]; e_start := 0; e_end := 5; e_fs := 1000 |} in
+  let B2 := {| evs := [(Falling, 6)]; e_start := 5; e_end := 9; e_fs := 1000 |} in
+  ([B1; B2] <> [] /\ adjacent [B1; B2] /\ same_fs [B1; B2]) /\
+  gen_combine_events [B1; B2] = inl {| evs := [(Rising, 3); (Falling, 6)]; e_start := 0; e_end := 9; e_fs := 1000 |} /\
+  gen_combine_events [] = inr EIndex /\
+  gen_combine_events [B2; B1] = inr EAlign /\
+  gen_combine_events [B1; {| evs := []; e_start := 5; e_end := 9; e_fs := 25 |}] = inr EFs.
+Proof. exact tie_ex_combine. Qed.
